@@ -18,15 +18,15 @@ Section Builder.
   (* isinstance(arg, expected_type) for the annotation kinds, and the converted argument *)
   Definition convert (k : pkind) (v : pyval) : option (arg T) :=
     match k, v with
-    | PQ, VInt z => Some (AQ z)
-    | PQ, VBool b => Some (AQ (if b then 1 else 0)%Z)
-    | PQ, VQubitObj z => Some (AQ z)
-    | PQ, VIntObj z => Some (AQ z)
-    | PF, VFloatObj x => Some (AF x)
-    | PI, VInt z => Some (AI z)
-    | PI, VBool b => Some (AI (if b then 1 else 0)%Z)
-    | PI, VIntObj z => Some (AI z)
-    | PB, VBitObj z => Some (AB z)
+    | KQ, VInt z => Some (AQ z)
+    | KQ, VBool b => Some (AQ (if b then 1 else 0)%Z)
+    | KQ, VQubitObj z => Some (AQ z)
+    | KQ, VIntObj z => Some (AQ z)
+    | KF, VFloatObj x => Some (AF x)
+    | KI, VInt z => Some (AI z)
+    | KI, VBool b => Some (AI (if b then 1 else 0)%Z)
+    | KI, VIntObj z => Some (AI z)
+    | KB, VBitObj z => Some (AB z)
     | _, _ => None
     end.
 
